@@ -11,10 +11,12 @@ def showRId (i : RId) : String := s!"{i.1}:{toHex i.2}"
 
 private def natKey (n : Nat) : String := (String.ofList (List.replicate (10 - (toString n).length) '0')) ++ toString n
 
-/-- canonical dump: rounds (sorted) with their sorted signer indices; rcvd per signer (sorted by signer, list order kept) -/
+/-- canonical dump: rounds (sorted) with their sorted signer indices, each with the first four bytes of the cached partial
+after the index prefix (which partial of that signer is cached: the first or the newest); rcvd per signer (sorted by signer, list order kept) -/
 def cacheDump (c : Cache) : String :=
   let rs := sortStrs (c.rounds.map fun e =>
-    natKey e.1.1 ++ ":" ++ toHex e.1.2 ++ "=" ++ ",".intercalate (sortStrs (e.2.sigs.map fun s => natKey s.1)))
+    natKey e.1.1 ++ ":" ++ toHex e.1.2 ++ "=" ++
+      ",".intercalate (sortStrs (e.2.sigs.map fun s => natKey s.1 ++ "/" ++ toHex ((if s.2.length > 2 then s.2.drop 2 else s.2).take 4))))
   let rc := sortStrs (c.rcvd.map fun e => natKey e.1 ++ "=" ++ ",".intercalate (e.2.map showRId))
   "R[" ++ " ".intercalate rs ++ "] C[" ++ " ".intercalate rc ++ "]"
 
@@ -39,7 +41,7 @@ def cacheStep (c : Cache) (f : List String) : Cache × String :=
   | ["sizes"] =>
     let mx := c.rcvd.foldl (fun m e => max m e.2.length) 0
     (c, s!"{c.rounds.length} {mx}")
-  | ["reset"] => (Cache.empty c.sigLen, "ok")
+  | ["reset"] => (Cache.empty c.sigLen c.replace, "ok")
   | _ => (c, "bad-op")
 
 end Drand.Driver.CacheD
